@@ -33,14 +33,23 @@ def new_input(E, name, dtype, shape, device="cpu", requires_grad=False, strides=
     rank = len(shape)
     if rank == 0:
         c = z3.Const(name, srt)
+        if dtype in sym.INT_DTYPES and E.alg.intmode == "int":
+            lo0, hi0 = sym.int_range(dtype)
+            E.alg.side.append(("fact", z3.And(c >= lo0, c <= hi0)))
         elem = lambda idx: c
     else:
         f = z3.Function(name, *([z3.IntSort()] * rank), srt)
 
+        int_range = sym.int_range(dtype) if (dtype in sym.INT_DTYPES and E.alg.intmode == "int") else None
+
         def elem(idx, f=f):
             idx2 = [sym.to_z3_int(i) for i in idx]
             E.ps.setdefault("touched", []).append((name, rank, idx2))
-            return f(*idx2)
+            v = f(*idx2)
+            if int_range is not None:
+                # typing fact: an element of an integer tensor lies in the range of its dtype
+                E.alg.side.append(("fact", z3.And(v >= int_range[0], v <= int_range[1])))
+            return v
 
     t = STensor(dtype, shape, elem, device=device, name=name, fresh=False, requires_grad=requires_grad)
     t.strides = tuple(strides) if strides is not None else None
@@ -539,11 +548,25 @@ def dispatch(E, op, args, kwargs, node=None):
 def call_aten(E, op, args, kwargs, node=None):
     if has_wrapper(args) or has_wrapper(kwargs):
         return dispatch(E, op, list(args), kwargs, node)
-    from . import tm_index
+    from . import cap, tm_index
 
     impl = ATEN.get(op.name) or tm_index.ATEN.get(op.name)
     if impl is None:
         raise Unsupported(f"aten op {op.name}")
+    # A-TORCH-CAP: ops PyTorch does not implement for float8 payloads on this build (probed natively)
+    flat = []
+
+    def walk(x):
+        if isinstance(x, STensor):
+            flat.append(x)
+        elif isinstance(x, (list, tuple)):
+            for y in x:
+                walk(y)
+
+    walk(list(args))
+    for t in flat:
+        if t.dtype in ("float8_e4m3fn", "float8_e5m2") and not cap.supported(op.name, t.dtype):
+            raise_(E, "NotImplementedError", f"\"{op.name}\" not implemented for '{t.dtype}'", node)
     return impl(E, *args, **kwargs)
 
 
@@ -616,6 +639,10 @@ def tensor_getattr(E, t, name, node=None):
         return t.attrs[name]
     if name in TENSOR_METHODS:
         return Builtin(f"Tensor.{name}", lambda E2, *a, **k: tensor_method(E2, t, name, a, k, node))
+    from . import cap
+
+    if not cap.tensor_has_attr(name):
+        raise_(E, "AttributeError", f"'Tensor' object has no attribute '{name}'", node)
     raise Unsupported(f"Tensor attribute '{name}' is not covered by the PyTorch model")
 
 
